@@ -1,6 +1,7 @@
 import FxVerif.Proofs.C01
 import FxVerif.Proofs.C01Gen
 import FxVerif.Proofs.C01R4
+import FxVerif.Proofs.C01R5
 /-!
 # C02 — an event takes effect only with a 66 % power quorum of distinct registered oracles
 
@@ -554,5 +555,83 @@ example : (gstep (greach wp (indexDemo.take 6)) (.op (.claim 103 103 1 0 .other 
 /-- a corrupted index (bridger 999 → oracle 1) is repaired by the round trip -/
 example : let s : State := { oracles := [(1, ⟨101, 201, 0, true, 0⟩)], byBridger := [(999, 1)] }
     (roundTrip s).byBridger = [(101, 1)] := by decide
+
+/-! ## round 5 — "… have each voted for that very event" -/
+
+/-- what an entry of the cast log says: `(o, n, h)` is cast by an operation exactly when that operation is an ACCEPTED claim
+message for event nonce `n` with claim id `h`, submitted through the bridger that is registered for oracle `o` at that moment,
+and `o` is a registered, online oracle -/
+theorem cast_vote_is_accepted_claim (s : State) (op : GOp) (o n h : Nat) (hc : (o, n, h) ∈ castOf s op) :
+    ∃ w i k e orc, op = .op (.claim w i n h k e) ∧ (step s (.claim w i n h k e)).2 = .ok ∧
+      s.byBridger.get (voter w i) = some o ∧ s.oracles.get o = some orc ∧ orc.online = true := by
+  cases op with
+  | genesis => simp [castOf] at hc
+  | op x =>
+    cases x with
+    | claim w i n' h' k e =>
+      by_cases hok : (claimStep s w i n' h' k).2 = .ok
+      · obtain ⟨a, orc, hga, hgo, hon, _⟩ := claim_ok s w i n' h' k hok
+        simp only [castOf, step, hok, hga, List.mem_singleton, Prod.mk.injEq] at hc
+        obtain ⟨rfl, rfl, rfl⟩ := hc
+        exact ⟨w, i, k, e, orc, rfl, hok, hga, hgo, hon⟩
+      · exfalso
+        simp only [castOf, step] at hc
+        split at hc
+        · rename_i h1 _; exact hok h1
+        · cases hc
+    | bond => simp [castOf] at hc
+    | addDelegate => simp [castOf] at hc
+    | editBridger => simp [castOf] at hc
+    | unbond => simp [castOf] at hc
+    | gov => simp [castOf] at hc
+    | endBlock => simp [castOf] at hc
+    | exec => simp [castOf] at hc
+
+/-- FULL STRENGTH, every history with restarts: every vote that sits on a stored attestation (event nonce, claim id) was cast by
+an accepted claim message for THAT event nonce and THAT claim id (`castLog`: the accepted claims of the history, in order) —
+no operation other than an accepted claim adds a vote, a vote never moves to another attestation, a genesis import reloads
+the vote lists and adds nothing -/
+theorem votes_are_cast_claims (p : Params) (ops : List GOp) (a : Att) (ha : a ∈ (greach p ops).atts) (o : Nat) (ho : o ∈ a.votes) :
+    (o, a.nonce, a.hash) ∈ castLog (init p) ops := by
+  have := cast_grun (init p) [] ops (cast_init p) a ha o ho
+  simpa using this
+
+/-- the property's first sentence, over whole histories with restarts: the attestation a claim newly marks observed has a
+duplicate-free vote list, its DISTINCT registered voters hold at least `66 * lastTotalPower / 100`, and EVERY ONE of them
+voted — by an accepted claim of its own — for that very event (same event nonce, same claim id) -/
+theorem quorum_voted_for_that_very_event (p : Params) (ops : List GOp)
+    (w i n h : Nat) (k : Kind) (e : Nat) (a' : Att)
+    (ha : a' ∈ (step (greach p ops) (.claim w i n h k e)).1.atts) (hob : a'.observed = true)
+    (hnew : ¬ ∃ b ∈ (greach p ops).atts, b.observed = true ∧ b.nonce = a'.nonce ∧ b.hash = a'.hash) :
+    a'.votes.Nodup ∧ 66 * (greach p ops).lastTotalPower / 100 ≤ distinctPower (greach p ops).oracles a'.votes ∧
+    ∀ o ∈ a'.votes, (o, a'.nonce, a'.hash) ∈ castLog (init p) (ops ++ [.op (.claim w i n h k e)]) := by
+  obtain ⟨h1, h2⟩ := observed_quorum_distinct_g p ops w i n h k e a' ha hob hnew
+  refine ⟨h1, h2, fun o ho => ?_⟩
+  have hm : a' ∈ (greach p (ops ++ [GOp.op (.claim w i n h k e)])).atts := by
+    show a' ∈ (grun (init p) (ops ++ [GOp.op (.claim w i n h k e)])).atts
+    rw [grun_append]
+    exact ha
+  exact votes_are_cast_claims p (ops ++ [GOp.op (.claim w i n h k e)]) a' hm o ho
+
+/-- the claim id stands for the WHOLE claim only if the hashed path determines every field: in the six `ClaimHash` format
+strings the only identity fields that follow each other without a separator are a decimal number (`m.EventNonce`) followed by
+an external address (`m.TokenContract`, validated: `0x…` / `T…`, never starting with a digit) — still uniquely decodable.  Any
+other unseparated pair (e.g. hex call data directly followed by a decimal value) lets two different events share one
+attestation: the votes for one are then tallied for the other (the harness votes such pairs — `applyLie` — and compares the
+whole claims of the voters tallied together on the real keeper) -/
+theorem claim_identity_fields_separated :
+    ∀ x ∈ claimHashJoined, x.2.1 = "m.EventNonce" ∧ x.2.2 = "m.TokenContract" := by decide
+
+/-- non-vacuity: in `restartDemo` the observed attestation of nonce 1 carries the votes of oracles 2 and 1, cast before and
+after the restart -/
+example : castLog (init wp) restartDemo = [(2, 1, 0), (1, 1, 0)] := by decide
+example : (greach wp restartDemo).atts = [{ nonce := 1, hash := 0, votes := [2, 1], observed := true }] := by decide
+/-- the hypotheses of `quorum_voted_for_that_very_event` are satisfiable (the last claim of `restartDemo` observes nonce 1) -/
+example : let s := greach wp (restartDemo.take 9)
+    (∃ a' ∈ (step s (.claim 101 101 1 0 .pending 1001)).1.atts, a'.observed = true) ∧
+    ¬ ∃ b ∈ s.atts, b.observed = true := by decide
+/-- a lying oracle's claim (another claim id for the same nonce) sits on its own attestation and is not in the cast log of the event -/
+example : let ops := restartDemo.take 9 ++ [.op (.claim 103 103 1 24 .pending 1001)]
+    (greach wp ops).lastObserved = 0 ∧ castLog (init wp) ops = [(2, 1, 0), (3, 1, 24)] := by decide
 
 end FxVerif.Props.C02
